@@ -447,6 +447,10 @@ def r3(p, rep):
             if isinstance(n, ast.Call) and isinstance(n.func, ast.Name) and n.func.id == "hash":
                 f = p.func_containing(n)
                 in_hash = f is not None and f.name == "__hash__"
+                if not in_hash and f is not None and f.parent is None and f.cls is None:
+                    # a module-level helper that is only ever called from __hash__ methods
+                    callers = [g for g in p.funcs.values() if g.module is m and any(isinstance(c_, ast.Call) and isinstance(c_.func, ast.Name) and c_.func.id == f.name for c_ in ast.walk(g.node)) and g is not f]
+                    in_hash = bool(callers) and all(g.name == "__hash__" for g in callers)
                 rep.add("C16.R3", f"{f.qualname if f else m.name}:hash():{norm(n)[:40]}", f"{m.rel}:{n.lineno}", in_hash, "hash() inside __hash__ (only used for dict/set membership)" if in_hash else "hash() value used outside __hash__ (string hashes vary per process)")
     rep.ok("C16.R3", "summary", "", f"no reference to random/time/urandom/secrets/datetime in {len(p.modules)} modules")
 
